@@ -104,7 +104,7 @@ type sccp struct {
 	maxDepth int
 	// hooks lets a rule give meaning to calls SCCP does not model
 	// (e.g. a scanner read returning a fixed token). Return ok=false to decline.
-	hook func(call *ssa.Call, args []cval) (results []cval, ok bool)
+	hook      func(call *ssa.Call, args []cval) (results []cval, ok bool)
 	constMaps map[*ssa.Global]map[string]constant.Value
 	// override binds chosen SSA values (loads, calls) to constants: the
 	// "finite enumerated input" a table is extracted over.
